@@ -378,6 +378,35 @@ class GuardStates:
             out.append([(self.exprs[t], pol) for (t, pol) in sorted(facts)])
         return out
 
+    def at_expr(self, node: Node, sub: ast.AST) -> List[List[Tuple[ast.expr, bool]]]:
+        """Facts holding when sub-expression `sub` of `node` is evaluated: those before the node plus the
+        short-circuit context (`a and <sub>` evaluates sub only when a held, `a or <sub>` only when it did not,
+        `x if t else <sub>` only when t did not)."""
+        extra: List[Tuple[ast.expr, bool]] = []
+        cur = sub
+        top = node.ast
+        while cur is not None and cur is not top:
+            par = getattr(cur, "_parent", None)
+            if isinstance(par, ast.BoolOp):
+                for v in par.values:
+                    if v is cur:
+                        break
+                    extra.append((v, isinstance(par.op, ast.And)))
+            elif isinstance(par, ast.IfExp):
+                if cur is par.body:
+                    extra.append((par.test, True))
+                elif cur is par.orelse:
+                    extra.append((par.test, False))
+            cur = par
+        # conjunctions on the left of an `and` hold one by one
+        flat: List[Tuple[ast.expr, bool]] = []
+        for ex, pol in extra:
+            if pol and isinstance(ex, ast.BoolOp) and isinstance(ex.op, ast.And):
+                flat.extend((v, True) for v in ex.values)
+            else:
+                flat.append((ex, pol))
+        return [p + flat for p in self.at(node)]
+
     def after_edge(self, e: Edge) -> List[List[Tuple[ast.expr, bool]]]:
         node = self.cfg.nodes[e.src]
         st = stores_of(node)
